@@ -143,13 +143,13 @@ def resolved_horizon(pc, cfg):
     return h
 
 
-def gen_tiger(rng, gamma):
+def gen_tiger(rng, gamma, costs=False):
     """information-gathering template (Tiger-like): m hidden states, action 0 = listen (informative
     observation, small cost, state persists), actions 1.. = commit to a state (reward if right, penalty if
     wrong, then terminal state or reset); observations only help through listening, so the value of a
     belief depends on which alpha vector is used after each observation"""
     m = rng.choice([2, 2, 3])
-    term = rng.random() < .5
+    term = rng.random() < .5 and not costs      # costs: no terminal state, every value large and negative
     n = m + (1 if term else 0)
     ncommit = rng.randint(1, min(m, 2))
     nA = 1 + ncommit
@@ -173,6 +173,8 @@ def gen_tiger(rng, gamma):
                 row = [[ns, str(p)] for ns, p in zip(range(m), parts)]
             trans["%d,%d" % (s, a)] = row
             r = F(rng.randint(4, 16), 2) if s == a - 1 else -F(rng.randint(4, 24), 2)
+            if costs:
+                r = -F(rng.randint(1, 3), 2) if s == a - 1 else -F(rng.randint(8, 24), 2)
             for ns, p in row:
                 reward["%d,%d,%d" % (s, a, ns)] = str(r)
     if term:
@@ -344,7 +346,8 @@ def gen_fullobs_slip(rng, gamma):
     r1, r2, c2 = rng.randint(1, 4), rng.randint(1, 4), rng.randint(1, 4)
     trans = {"0,0": [[1, str(1 - p)], [2, str(p)]], "0,1": [[1, str(1 - p)], [2, str(p)]],
              "1,0": [[1, "1"]], "1,1": [[1, "1"]], "2,0": [[2, "1"]], "2,1": [[2, "1"]]}
-    reward = {"1,0,1": str(r1), "2,0,2": str(-c2), "2,1,2": str(r2)}
+    # action 0 is strictly better in states 0 and 1 (so every vector backed up there plays it), action 1 in state 2
+    reward = {"0,0,1": "1", "0,0,2": "1", "1,0,1": str(r1), "2,0,2": str(-c2), "2,1,2": str(r2)}
     obs = {"%d,%d" % (a, ns): [[ns, "1"]] for a in (0, 1) for ns in range(3)}
     return {"n": 3, "nA": 2, "actions": [[0, 1]] * 3, "trans": trans, "reward": reward,
             "absorbing": [False] * 3, "init": [[0, "1"]], "gamma": gamma, "nO": 3, "obs": obs,
@@ -386,7 +389,7 @@ def gen_case(rng, tier, force=None):
         pc, vname = gen_fullobs_slip(rng, gamma)
         variants[-1] = vname
     elif r < .35:
-        pc = gen_tiger(rng, gamma)
+        pc = gen_tiger(rng, gamma, costs=bool(force) and force.startswith("large-values"))
     elif r < .45 and not force:
         pc = gen_corridor(rng, gamma)
         variants.append("corridor-n=%d" % pc["n"])
@@ -394,7 +397,7 @@ def gen_case(rng, tier, force=None):
         nmax = 3 if rng.random() < .6 else 4
         for _ in range(50):
             pc = gen_pomdp.gen_pomdp(rng, nmax=nmax, amax=3, omax=3, gamma=gamma, near_twin=0.0 if force else .15,
-                                     nonpos=bool(force))
+                                     nonpos=bool(force), goal=not force)
             if (pc["nO"] >= 2 or rng.random() < .1) and (pc["nA"] >= 2 or rng.random() < .15):
                 break
     fullobs = r >= .45 and rng.random() < .25
